@@ -298,9 +298,20 @@ def tagHasString (tag : Bytes) : Bool :=
   let pat : Bytes := [44, 115, 116, 114, 105, 110, 103]
   (List.range (tag.length + 1)).any fun i => (tag.drop i).take pat.length == pat
 
-/-- looks like what `AppendFloat(…, 'g', -1, …)` writes: the model keeps such a text as the float -/
-def floatTextOK (s : Bytes) : Bool :=
-  !s.isEmpty && s.all (fun c => isDigit c || c = 45 || c = 43 || c = 46 || c = 101)
+/-- `strconv.ParseFloat` of a `,string` datum followed by the 'g' text of the result: a text with a
+point or an exponent is taken to be a 'g' text already (the fragment: floats whose 32- and 64-bit
+shortest texts coincide) and kept; a plain integer text of at most 6 digits is kept as well
+(`"123"` → 123 → `"123"`), a longer one would come back in exponent form or rounded to float32
+(`outside`; only a foreign index puts an integer `,string` datum into a float field); anything else
+does not parse (panic). -/
+def floatFromString (s : Bytes) : Slot :=
+  let body := match s with | 45 :: r => r | _ => s
+  if !body.isEmpty && body.all isDigit then
+    (if body.length ≤ 6 && (body.length = 1 || body.head? != some 48) && !(body = [48] && s.head? == some 45)
+      then .ok (.flt s) else .outside)
+  else if !body.isEmpty && (body.head?.map isDigit == some true) &&
+      s.all (fun c => isDigit c || c = 45 || c = 43 || c = 46 || c = 101) then .ok (.flt s)
+  else .panic
 
 /-- `setValue` / `recomp` on a scalar slot of type `t` given datum `j`; `sf`: the struct field the
 slot is (its tag matters for `,string`), `none` for elements -/
@@ -320,7 +331,7 @@ def scalarSlot (t : GoType) (j : JV) (sf : Option IdxEntry) : Slot :=
   | .int _, _ => .panic
   | .float _, .flt s => .ok (.flt s)
   | .float _, .int i => (match intAsFloatText i with | some s => .ok (.flt s) | none => .outside)
-  | .float _, .str s => if strTag then (if floatTextOK s then .ok (.flt s) else .outside) else .panic
+  | .float _, .str s => if strTag then floatFromString s else .panic
   | .float _, _ => .panic
   | .str, .str s => .ok (.str s)
   | .str, .int _ => .outside                                -- Convert int → string: a rune
